@@ -3,11 +3,13 @@ package props
 import (
 	"encoding/json"
 	"fmt"
+	"math/big"
 	"sort"
 	"strings"
 
 	"github.com/ja7ad/otp"
 
+	"verifh/gen"
 	"verifh/hooks"
 	"verifh/ref"
 )
@@ -131,6 +133,47 @@ func judgeName(c *Ctx, k nameCase) {
 		if r.WantSample() {
 			r.Sample(map[string]any{"name": k.Name, "accepted": true, "config": cfg})
 		}
+	case k.Class == "case-variant":
+		m, ok := ref.ParseSuiteNameFold(k.Name)
+		if !ok {
+			return
+		}
+		if err != nil {
+			r.Count("case_variant_strings_rejected", 1)
+			return
+		}
+		r.Count("case_variant_strings_accepted", 1)
+		r.Nontrivial("cv|" + k.Name)
+		cfg := s.Config()
+		if d := sameMeaning(fromCfg(cfg), m); d != "" {
+			r.Violate("C15|NewRawSuite|parsed-config-differs|case-variant", "the parser accepts a case variant of a suite string but the configuration does not mean what the string says", "name", k, fmt.Sprintf("%+v", m), d)
+		}
+		if s.String() != k.Name || cfg.Raw != k.Name {
+			r.Violate("C15|NewRawSuite|name-not-reported|case-variant", "a suite instantiated from a string does not report that string as its name (it reports another spelling)", "name", k, k.Name, fmt.Sprintf("String()=%q Config().Raw=%q", s.String(), cfg.Raw))
+		}
+	case strings.HasPrefix(k.Class, "number:"):
+		// a numeric field written with many digits: reject, or represent exactly — never a wrapped value
+		f := strings.Split(k.Class, ":")
+		want, _ := new(big.Int).SetString(f[2], 10)
+		r.Nontrivial("n|" + k.Name)
+		if err != nil {
+			r.Count("large_number_strings_rejected", 1)
+			return
+		}
+		cfg := s.Config()
+		var got *big.Int
+		if f[1] == "digits" {
+			got = big.NewInt(int64(cfg.Digits))
+		} else {
+			got = big.NewInt(int64(cfg.TimeStep))
+			want = new(big.Int).Mul(want, big.NewInt(map[string]int64{"S": 1, "M": 60, "H": 3600}[f[3]]))
+		}
+		if got.Cmp(want) != 0 {
+			r.Violate("C15|NewRawSuite|number-wrapped|"+f[1], "the parser accepts a suite string whose "+f[1]+" number it cannot represent and approximates it (wrapped value)", "name", k, "rejection, or exactly "+want.String(), fmt.Sprintf("accepted with %s = %s (config %+v)", f[1], got, cfg))
+		}
+		if s.String() != k.Name {
+			r.Violate("C15|NewRawSuite|name-not-reported|", "a suite instantiated from a string does not report that string as its name", "name", k, k.Name, s.String())
+		}
 	default: // malformed
 		r.Nontrivial("m|" + k.Name)
 		if err == nil {
@@ -178,6 +221,36 @@ func grammarStrings(stride int, emit func(string)) (total int) {
 		}
 	}
 	return
+}
+
+// caseVariants: spellings of grammar strings that differ only in letter case of tokens the parser folds.
+func caseVariants(rng *gen.RNG, name string, n int) []string {
+	parts := strings.SplitN(name, ":", 3)
+	var out []string
+	for v := 0; v < n; v++ {
+		b := []byte(parts[1] + ":" + parts[2])
+		for i := range b {
+			// keep the unit letter of a time token (last letter of the string after "-T<n>") upper case
+			if b[i] >= 'A' && b[i] <= 'Z' && rng.Bool() && !(i == len(b)-1 && strings.Contains(parts[2], "-T")) {
+				b[i] += 32
+			}
+		}
+		out = append(out, parts[0]+":"+string(b))
+	}
+	return out
+}
+
+// largeNumberStrings: numeric fields written with many digits (2^32+k, 2^63±, 2^64+k, 10^19 …).
+func largeNumberStrings(emit func(name, class string)) {
+	nums := []string{"4294967302", "4294967326", "9223372036854775807", "9223372036854775808", "9223372036854775814", "18446744073709551615", "18446744073709551616",
+		"18446744073709551622", "18446744073709551646", "36893488147419103238", "99999999999999999999", "340282366920938463463374607431768211462", "00000000000000000006", "0000000000000000000000030"}
+	for _, n := range nums {
+		emit("OCRA-1:HOTP-SHA1-"+n+":QN08", "number:digits:"+n)
+		emit("OCRA-1:HOTP-SHA256-"+n+":C-QN10-PSHA1", "number:digits:"+n)
+		for _, u := range []string{"S", "M", "H"} {
+			emit("OCRA-1:HOTP-SHA1-6:QN08-T"+n+u, "number:time:"+n+":"+u)
+		}
+	}
 }
 
 func malformedStrings(emit func(name, kind string)) {
@@ -282,7 +355,31 @@ func init() {
 					cases = append(cases, nameCase{Name: n, Class: "malformed:" + kind})
 				}
 			})
+			largeNumberStrings(func(n, class string) { cases = append(cases, nameCase{Name: n, Class: class}) })
+			// case variants, each followed by another spelling of the same suite (history: a memo keyed by a
+			// folded form would hand the first spelling's name to the second)
+			rngCV := c.RNG.Fork(15)
+			var history []nameCase
+			cvBase := 0
+			grammarStrings(c.N(997, 97), func(sname string) {
+				cvBase++
+				for _, v := range caseVariants(rngCV, sname, 2) {
+					if !seen[v] {
+						history = append(history, nameCase{Name: v, Class: "case-variant"})
+					}
+				}
+				if !seen[sname] {
+					history = append(history, nameCase{Name: sname, Class: "grammar"})
+				}
+			})
 			parallelJudge(c, cases, judgeName)
+			// the history is judged sequentially, in order, twice
+			for pass := 0; pass < 2; pass++ {
+				for _, k := range history {
+					judgeName(c, k)
+				}
+			}
+			r.Extra["case_variant_history_length"] = 2 * len(history)
 			// unknown names: known-suite test false, lookup returns the zero configuration
 			for i, k := range cases {
 				if i%53 != 0 {
